@@ -66,7 +66,7 @@ MATS = {'M1': dict(density=2.1, molar_mass=60.08), 'M0': dict()}
 def coq_ads(k):
     d = ADS[k]
     f = lambda n: ('(Some %s)' % qlit(d[n])) if n in d else 'None'
-    return '(mkAds QNum %s %s %s %s %s %s)' % (f('saturation_pressure'), f('molar_mass'), f('liquid_density'),
+    return '(@ads_const QNum %s %s %s %s %s %s)' % (f('saturation_pressure'), f('molar_mass'), f('liquid_density'),
                                              f('gas_density'), f('liquid_molar_density'), f('gas_molar_density'))
 
 
